@@ -173,12 +173,13 @@ Proof.
   set (s := sin th) in *. set (c := cos th) in *. orient_unit.
   do 10 gate0.
   match goal with
-  | |- context [sqrt ?e] => let H := fresh in assert (H : e = (2 * s) * (2 * s)) by hring; rewrite H; clear H;
-                            rewrite sqrt_sq_abs, Rabs_right by lra
+  | |- context [sqrt ?e] => let H := fresh in assert (H : e = (2 * s) * (2 * s)) by hring; rewrite H; clear H
   end.
+  rewrite sqrt_sq_abs. rewrite Rabs_right by lra.
   destruct (Req_EM_T 0 (2 * s)) as [E|_]; [exfalso; lra|].
   replace (1 / 2 * (2 * s)) with s by field.
-  match goal with |- context [atan2 s ?b] => replace b with c by hring end.
+  match goal with |- context [atan2 s (1 / 2 * ?X)] => replace X with (2 * c) by hring end.
+  replace (1 / 2 * (2 * c)) with c by field.
   rewrite A by lra.
   val_eq; field; lra.
 Qed.
